@@ -5,7 +5,10 @@
 //! The interleaved backend log is abstracted (as in C03) and judged by the Lean driver: nothing a snapshot needs is
 //! lost after any prefix, and the repository is consistent after the follow-up prune.
 //!
-//!   c10 mon <bp|pb|bb> <seed>,<k> <pre-ops> <run-ops> <followup-ops>
+//!   c10 mon <bp|pb|bb> <seed>,<k>[,<j>] <pre-ops> <run-ops> <followup-ops>
+//!   c10 mon bfp <seed>,<k>,<code> <pre-ops> <run-ops> <followup-ops>      (forget + prune(s) while a backup is parked, see `Fp`)
+//! With `j`: B runs on a gated thread too and parks before its j-th storage operation until A has finished
+//! (interleaving A[0..k) B[0..j) A[k..] B[j..]).
 use std::sync::atomic::{AtomicBool, AtomicUsize, Ordering};
 use std::sync::mpsc::channel;
 use std::sync::{Arc, Mutex};
@@ -84,33 +87,48 @@ fn run_actor(kind: char, h: &RepoHandle, seed: u64, version: u64, now: i64) -> R
     }
 }
 
+/// what a scenario run is for: `Exec` — the direct oracles decide (no trace); `Trace` — produce the abstract trace for the Lean
+/// driver whatever the oracles say; `Count` — only count the storage operations of the actors
+#[derive(Clone, Copy, PartialEq, Eq, Debug)]
+pub enum Mode {
+    Exec,
+    Trace,
+    Count,
+}
+
 pub struct Run {
     pub pre: Vec<String>,
     pub run: Vec<String>,
     pub follow: Vec<String>,
     pub n_a: usize,
+    /// storage operations of B (only counted when B is gated)
+    pub n_b: usize,
 }
 
-/// One gated run.  Returns the abstract traces, or the failing oracle.
-fn scenario(kind: &str, seed: u64, k: usize, with_trace: bool) -> Result<Run, String> {
-    let pre = prestate(seed)?;
-    let before = pre.h.be.store();
-    let (ka, kb) = (kind.chars().next().unwrap(), kind.chars().nth(1).unwrap());
-    // A's handle shares the store and the log, but has its own gate
-    let ha = RepoHandle {
-        be: MemBackend { inner: pre.h.be.inner.clone(), gate: Arc::new(Mutex::new(None)), name: "actor-a" },
+/// A command running on its own thread over its own `MemBackend` handle (same store, same log, own gate) that parks
+/// before its `k`-th storage operation until resumed.
+struct Gated {
+    th: std::thread::JoinHandle<Result<Out, String>>,
+    parked: std::sync::mpsc::Receiver<()>,
+    resume: std::sync::mpsc::Sender<()>,
+    own: Arc<AtomicUsize>,
+}
+
+fn spawn_gated(base: &RepoHandle, name: &'static str, k: usize, f: impl FnOnce(&RepoHandle) -> Result<Out, String> + Send + 'static) -> Gated {
+    let h = RepoHandle {
+        be: MemBackend { inner: base.be.inner.clone(), gate: Arc::new(Mutex::new(None)), name },
         hot: None,
-        key: pre.h.key.clone(),
+        key: base.key.clone(),
     };
-    let (parked_tx, parked_rx) = channel::<()>();
-    let (resume_tx, resume_rx) = channel::<()>();
+    let (parked_tx, parked) = channel::<()>();
+    let (resume, resume_rx) = channel::<()>();
     let resume_rx = Arc::new(Mutex::new(resume_rx));
     let own = Arc::new(AtomicUsize::new(0));
     let released = Arc::new(AtomicBool::new(false));
     {
         let (own, released, resume_rx) = (own.clone(), released.clone(), resume_rx.clone());
-        let parked_tx = Mutex::new(parked_tx.clone());
-        ha.be.set_gate(Some(Arc::new(move |_k: usize, _op: &LogOp| {
+        let parked_tx = Mutex::new(parked_tx);
+        h.be.set_gate(Some(Arc::new(move |_k: usize, _op: &LogOp| {
             let mine = own.fetch_add(1, Ordering::SeqCst);
             if mine == k && !released.swap(true, Ordering::SeqCst) {
                 _ = parked_tx.lock().unwrap().send(());
@@ -118,33 +136,55 @@ fn scenario(kind: &str, seed: u64, k: usize, with_trace: bool) -> Result<Run, St
             }
         })));
     }
-    let now = pre.now;
-    let ha2 = ha.clone();
-    let a_thread = std::thread::spawn(move || {
-        // A backs up version 0 again: the content of the snapshot whose packs were marked long ago (a backup that
-        // dedups against marked packs would rely on packs the concurrent prune deletes)
-        let r = run_actor(ka, &ha2, seed, 0, now);
-        r
-    });
-    // wait until A is parked (or has finished with fewer than k operations)
-    let done_tx = parked_tx;
-    let mut a_finished_early = false;
+    let th = std::thread::spawn(move || f(&h));
+    Gated { th, parked, resume, own }
+}
+
+/// wait until the command is parked (or has finished with fewer than k operations)
+fn wait_parked(g: &Gated) {
     loop {
-        if parked_rx.recv_timeout(Duration::from_millis(20)).is_ok() {
-            break;
-        }
-        if a_thread.is_finished() {
-            a_finished_early = true;
+        if g.parked.recv_timeout(Duration::from_millis(20)).is_ok() || g.th.is_finished() {
             break;
         }
     }
-    drop(done_tx);
+}
+
+/// One gated run: A parked before its k-th storage operation; then B runs — completely (`j = None`) or up to its j-th
+/// operation, where it parks until A has finished.  Returns the abstract traces, or the failing oracle.
+fn scenario(kind: &str, seed: u64, k: usize, j: Option<usize>, mode: Mode) -> Result<Run, String> {
+    let pre = prestate(seed)?;
+    let before = pre.h.be.store();
+    let (ka, kb) = (kind.chars().next().unwrap(), kind.chars().nth(1).unwrap());
+    let now = pre.now;
+    // A backs up version 0 again: the content of the snapshot whose packs were marked long ago (a backup that
+    // dedups against marked packs would rely on packs the concurrent prune deletes); odd seeds: a new version (more packs)
+    let va = if seed % 2 == 0 { 0 } else { 5 };
+    let ga = spawn_gated(&pre.h, "actor-a", k, move |h| run_actor(ka, h, seed, va, now));
+    wait_parked(&ga);
     // files A wrote before it was parked may be replaced by B: keep their content for the trace abstraction
     let mid = pre.h.be.store();
-    let b_out = run_actor(kb, &pre.h, seed, 4, now);
-    _ = resume_tx.send(());
-    let a_out = a_thread.join().map_err(|_| "oracle-fail:actor-a-panicked".to_string())?;
-    let _ = a_finished_early;
+    let mut mid2 = mid.clone();
+    let mut n_b = 0;
+    let (a_out, b_out) = match j {
+        None => {
+            let b_out = run_actor(kb, &pre.h, seed, 4, now);
+            _ = ga.resume.send(());
+            let a_out = ga.th.join().map_err(|_| "oracle-fail:actor-a-panicked".to_string())?;
+            (a_out, b_out)
+        }
+        Some(j) => {
+            let gb = spawn_gated(&pre.h, "actor-b", j, move |h| run_actor(kb, h, seed, 4, now));
+            wait_parked(&gb);
+            mid2 = pre.h.be.store();
+            _ = ga.resume.send(());
+            let a_out = ga.th.join().map_err(|_| "oracle-fail:actor-a-panicked".to_string())?;
+            _ = gb.resume.send(());
+            let b_out = gb.th.join().map_err(|_| "oracle-fail:actor-b-panicked".to_string())?;
+            n_b = gb.own.load(Ordering::SeqCst);
+            (a_out, b_out)
+        }
+    };
+    let own = ga.own;
     let a_out = a_out?;
     let b_out = b_out?;
     let n_a = own.load(Ordering::SeqCst);
@@ -158,31 +198,166 @@ fn scenario(kind: &str, seed: u64, k: usize, with_trace: bool) -> Result<Run, St
     }
     // follow-up prune one hour later (keep-delete respected), then the repository must be completely healthy
     pre.h.be.clear_log();
-    prune_at(&pre.h, now + 10_800 + KD).map_err(|e| format!("oracle-fail:followup-prune-{}", errkind(&e)))?;
-    let log_follow = pre.h.be.log();
-    match check_errors_retry(&pre.h, true) {
-        Some(0) => {}
-        Some(_) => return Err("oracle-fail:check-errors-after-followup".into()),
-        None => return Err("oracle-fail:check-failed-after-followup".into()),
-    }
-    let r = pre.h.open().and_then(|r| r.to_indexed()).map_err(|_| "oracle-fail:open".to_string())?;
-    for (s, src) in &live {
-        let mut got = repo::read_back(&r, s).map_err(|_| "oracle-fail:snapshot-unreadable-after-followup".to_string())?;
-        got.retain(|e| e.path != b"src");
-        if got != repo::expected(src) {
-            return Err("oracle-fail:snapshot-differs-after-followup".into());
+    let oracle = (|| -> Result<(), String> {
+        prune_at(&pre.h, now + 10_800 + KD).map_err(|e| format!("oracle-fail:followup-prune-{}", errkind(&e)))?;
+        match check_errors_retry(&pre.h, true) {
+            Some(0) => {}
+            Some(_) => return Err("oracle-fail:check-errors-after-followup".into()),
+            None => return Err("oracle-fail:check-failed-after-followup".into()),
         }
+        let r = pre.h.open().and_then(|r| r.to_indexed()).map_err(|_| "oracle-fail:open".to_string())?;
+        for (s, src) in &live {
+            let mut got = repo::read_back(&r, s).map_err(|_| "oracle-fail:snapshot-unreadable-after-followup".to_string())?;
+            got.retain(|e| e.path != b"src");
+            if got != repo::expected(src) {
+                return Err("oracle-fail:snapshot-differs-after-followup".into());
+            }
+        }
+        Ok(())
+    })();
+    let log_follow = pre.h.be.log();
+    if mode != Mode::Trace {
+        // `exec`: the direct oracles decide
+        if mode == Mode::Exec {
+            oracle?;
+        }
+        return Ok(Run { pre: vec![], run: vec![], follow: vec![], n_a, n_b });
     }
-    if !with_trace {
-        return Ok(Run { pre: vec![], run: vec![], follow: vec![], n_a });
-    }
-    let after_all = union(&union(&mid, &after_run), &pre.h.be.store());
+    // `generate`: the trace is judged by the Lean driver, whatever the oracles say
+    let after_all = union(&union(&union(&mid, &mid2), &after_run), &pre.h.be.store());
     let mut log = log_run.clone();
     log.extend(log_follow.iter().cloned());
     let n_run = log_run.iter().filter(|o| o.applied).count();
     let (p, mut toks) = abstract_tokens(&pre.h, &before, &after_all, &log)?;
     let follow = toks.split_off(n_run);
-    Ok(Run { pre: p, run: toks, follow, n_a })
+    Ok(Run { pre: p, run: toks, follow, n_a, n_b })
+}
+
+// ---------------------------------------------------------------------------------------------------------
+// family `bfp`: while a backup is parked (after its index load, before its k-th storage operation) snapshots are
+// forgotten and one or two prunes run; then the backup finishes; follow-up prune; everything must be healthy.
+
+/// Parameters of one `bfp` scenario (encoded in the op line as a number, see `Fp::code`).
+#[derive(Clone, Copy, Debug)]
+pub struct Fp {
+    /// snapshots before (versions 0..n of the evolving source)
+    pub n_snaps: u64,
+    /// forget every snapshot (the prune keeps nothing) — else only the newest one, whose content the backup re-uses
+    pub forget_all: bool,
+    /// 0: the backup saves exactly the forgotten content again (adds no blob, pure reuse); 1: plus one new file; 2: a newer version
+    pub a_new: u64,
+    /// prunes while the backup is parked (the second one 10 min after the first)
+    pub prunes: u64,
+    /// the plan times lie more than keep-delete after the creation of the packs
+    pub old_packs: bool,
+    pub no_resize: bool,
+}
+
+impl Fp {
+    pub fn code(&self) -> u64 {
+        (self.n_snaps - 1) + 3 * (u64::from(self.forget_all) + 2 * (self.a_new + 3 * ((self.prunes - 1) + 2 * (u64::from(self.old_packs) + 2 * u64::from(self.no_resize)))))
+    }
+    pub fn from_code(c: u64) -> Option<Self> {
+        if c >= 144 {
+            return None;
+        }
+        let (n, c) = (c % 3 + 1, c / 3);
+        let (f, c) = (c % 2 == 1, c / 2);
+        let (a, c) = (c % 3, c / 3);
+        let (p, c) = (c % 2 + 1, c / 2);
+        let (o, c) = (c % 2 == 1, c / 2);
+        Some(Self { n_snaps: n, forget_all: f, a_new: a, prunes: p, old_packs: o, no_resize: c % 2 == 1 })
+    }
+}
+
+fn prune_at_with(h: &RepoHandle, secs: i64, no_resize: bool) -> RusticResult<()> {
+    let r = h.open()?;
+    let o = parse_opts(&format!("0,0,{KD},000{}000,u,p0", u8::from(no_resize))).unwrap().opts;
+    let z = Timestamp::from_second(secs).unwrap().to_zoned(TimeZone::UTC);
+    let rep = hook::plan_at(&r, &o, z)?;
+    r.prune(&o, rep.plan)
+}
+
+fn scenario_fp(seed: u64, k: usize, fp: Fp, mode: Mode) -> Result<Run, String> {
+    let e = |x: Box<rustic_core::RusticError>| format!("oracle-fail:prestate-{}", errkind(&x));
+    let (h, _) = RepoHandle::init(MemBackend::new(), None, &cfg(seed)).map_err(e)?;
+    let now = Timestamp::now().as_second();
+    let mut live = vec![];
+    for v in 0..fp.n_snaps {
+        let src = source(seed, v, None);
+        let snap = do_backup(&h, &src).map_err(e)?;
+        live.push((snap, src));
+    }
+    h.be.clear_log();
+    let before = h.be.store();
+    let last = fp.n_snaps - 1;
+    let a_src = match fp.a_new {
+        0 => source(seed, last, None),
+        1 => source(seed, last, Some(Rng::new(seed ^ 0xa1).bytes(900))),
+        _ => source(seed, last + 3, None),
+    };
+    let a_src2 = a_src.clone();
+    // the backup loads its index now, then parks before its k-th storage operation
+    let ga = spawn_gated(&h, "actor-a", k, move |hh| {
+        let snap = do_backup(hh, &a_src2).map_err(|e| format!("oracle-fail:backup-{}", errkind(&e)))?;
+        Ok(Out::Snap(snap, a_src2))
+    });
+    wait_parked(&ga);
+    let mid = h.be.store();
+    // meanwhile: forget, prune (marks what only the forgotten snapshots used), maybe prune again 10 min later
+    let forget: Vec<_> = if fp.forget_all { live.drain(..).collect() } else { vec![live.pop().unwrap()] };
+    let ids: Vec<_> = forget.iter().map(|l| l.0.id).collect();
+    let t1 = now + if fp.old_packs { KD + 3600 } else { 3600 };
+    let b_res = (|| -> RusticResult<()> {
+        h.open()?.delete_snapshots(&ids)?;
+        prune_at_with(&h, t1, fp.no_resize)?;
+        if fp.prunes == 2 {
+            prune_at_with(&h, t1 + 600, fp.no_resize)?;
+        }
+        Ok(())
+    })();
+    _ = ga.resume.send(());
+    let a_out = ga.th.join().map_err(|_| "oracle-fail:actor-a-panicked".to_string())?;
+    b_res.map_err(|e| format!("oracle-fail:prune-{}", errkind(&e)))?;
+    if let Out::Snap(s, src) = a_out? {
+        live.push((s, src));
+    }
+    let n_a = ga.own.load(Ordering::SeqCst);
+    let log_run = h.be.log();
+    let after_run = h.be.store();
+    // follow-up prune one hour later, then the repository must be completely healthy
+    h.be.clear_log();
+    let oracle = (|| -> Result<(), String> {
+        prune_at_with(&h, t1 + 4200, fp.no_resize).map_err(|e| format!("oracle-fail:followup-prune-{}", errkind(&e)))?;
+        match check_errors_retry(&h, true) {
+            Some(0) => {}
+            Some(_) => return Err("oracle-fail:check-errors-after-followup".into()),
+            None => return Err("oracle-fail:check-failed-after-followup".into()),
+        }
+        let r = h.open().and_then(|r| r.to_indexed()).map_err(|_| "oracle-fail:open".to_string())?;
+        for (s, src) in &live {
+            let mut got = repo::read_back(&r, s).map_err(|_| "oracle-fail:snapshot-unreadable-after-followup".to_string())?;
+            got.retain(|e| e.path != b"src");
+            if got != repo::expected(src) {
+                return Err("oracle-fail:snapshot-differs-after-followup".into());
+            }
+        }
+        Ok(())
+    })();
+    let log_follow = h.be.log();
+    if mode != Mode::Trace {
+        if mode == Mode::Exec {
+            oracle?;
+        }
+        return Ok(Run { pre: vec![], run: vec![], follow: vec![], n_a, n_b: 0 });
+    }
+    let after_all = union(&union(&mid, &after_run), &h.be.store());
+    let mut log = log_run.clone();
+    log.extend(log_follow.iter().cloned());
+    let n_run = log_run.iter().filter(|o| o.applied).count();
+    let (p, mut toks) = abstract_tokens(&h, &before, &after_all, &log)?;
+    let follow = toks.split_off(n_run);
+    Ok(Run { pre: p, run: toks, follow, n_a, n_b: 0 })
 }
 
 /// Replay of theorem `slow_prune_can_lose` on the real code, sequentially, with injected plan times:
@@ -235,51 +410,129 @@ pub fn exec(toks: &[&str]) -> String {
         if toks.len() == 2 && toks[0] == "slowprune" {
             return toks[1].parse::<u64>().map_or("bad-op".into(), slow_prune);
         }
+        if toks.len() == 6 && toks[0] == "mon" && toks[1] == "bfp" {
+            let sp: Vec<&str> = toks[2].split(',').collect();
+            if sp.len() != 3 {
+                return "bad-op".into();
+            }
+            let (Ok(seed), Ok(k), Ok(code)) = (sp[0].parse::<u64>(), sp[1].parse::<usize>(), sp[2].parse::<u64>()) else { return "bad-op".into() };
+            let Some(fp) = Fp::from_code(code) else { return "bad-op".into() };
+            return match scenario_fp(seed, k, fp, Mode::Exec) {
+                Ok(_) => "ok".into(),
+                Err(e) => e,
+            };
+        }
         if toks.len() != 6 || toks[0] != "mon" || !["bp", "pb", "bb"].contains(&toks[1].as_str()) {
             return "bad-op".into();
         }
-        let Some((seed, k)) = toks[2].split_once(',') else { return "bad-op".into() };
-        let (Ok(seed), Ok(k)) = (seed.parse::<u64>(), k.parse::<usize>()) else { return "bad-op".into() };
-        match scenario(&toks[1], seed, k, false) {
+        let sp: Vec<&str> = toks[2].split(',').collect();
+        if sp.len() < 2 || sp.len() > 3 {
+            return "bad-op".into();
+        }
+        let (Ok(seed), Ok(k)) = (sp[0].parse::<u64>(), sp[1].parse::<usize>()) else { return "bad-op".into() };
+        let j = match sp.get(2).map(|x| x.parse::<usize>()) {
+            None => None,
+            Some(Ok(j)) => Some(j),
+            Some(Err(_)) => return "bad-op".into(),
+        };
+        match scenario(&toks[1], seed, k, j, Mode::Exec) {
             Ok(_) => "ok".into(),
             Err(e) => e,
         }
     })
 }
 
+/// the `bfp` family: every combination of (what the backup adds) × (one or two prunes) × (forget one / all) × (old / young
+/// packs), `n_snaps` and `no_resize` by seed; every park position k.  thorough: four rounds.
+fn generate_fp(thorough: bool, rng: &mut Rng, ops: &mut Vec<String>, stats: &mut Stats) {
+    for _ in 0..if thorough { 4 } else { 1 } {
+        for a_new in 0..3u64 {
+            for prunes in 1..=2u64 {
+                for forget_all in [false, true] {
+                    for old_packs in [false, true] {
+                        let seed = rng.below(1_000_000);
+                        let fp = Fp { n_snaps: 1 + rng.below(3), forget_all, a_new, prunes, old_packs, no_resize: rng.below(2) == 1 };
+                        let code = fp.code();
+                        let n_a = guarded(move || match scenario_fp(seed, usize::MAX, fp, Mode::Count) {
+                            Ok(r) => r.n_a.to_string(),
+                            Err(e) => e,
+                        })
+                        .parse::<usize>()
+                        .unwrap_or(0);
+                        for k in 0..=n_a {
+                            let spec = format!("{seed},{k},{code}");
+                            let spec2 = spec.clone();
+                            let line = guarded(move || match scenario_fp(seed, k, fp, Mode::Trace) {
+                                Ok(r) => {
+                                    let jn = |v: &[String]| if v.is_empty() { "-".to_string() } else { v.join(";") };
+                                    format!("c10 mon bfp {spec} {} {} {}", jn(&r.pre), jn(&r.run), jn(&r.follow))
+                                }
+                                Err(e) => format!("c10 mon bfp {spec} - X{} -", e.split_whitespace().next().unwrap_or("?")),
+                            });
+                            let line = if line.starts_with("c10 ") { line } else { format!("c10 mon bfp {spec2} - X{} -", line.split_whitespace().next().unwrap_or("?")) };
+                            stats.hit("kind.bfp");
+                            stats.hit(format!("bfp.adds{a_new}.prunes{prunes}.forget{}.{}", if forget_all { "all" } else { "one" }, if old_packs { "old" } else { "young" }));
+                            ops.push(line);
+                        }
+                    }
+                }
+            }
+        }
+    }
+}
+
 pub fn generate(thorough: bool, rng: &mut Rng, ops: &mut Vec<String>, stats: &mut Stats) {
-    let seeds = if thorough { 3 } else { 1 };
-    for _ in 0..seeds {
+    generate_fp(thorough, rng, ops, stats);
+    let seeds = if thorough { 12 } else { 2 };
+    for round in 0..seeds {
         for kind in ["bp", "pb", "bb"] {
             let seed = rng.below(1_000_000);
-            // number of storage operations of A (parked beyond its last operation = sequential run)
-            let n_a = match guarded(move || match scenario(kind, seed, usize::MAX, false) {
-                Ok(r) => r.n_a.to_string(),
+            // number of storage operations of A and of B (parked beyond the last operation = sequential run)
+            let (n_a, n_b) = match guarded(move || match scenario(kind, seed, usize::MAX, Some(usize::MAX), Mode::Count) {
+                Ok(r) => format!("{},{}", r.n_a, r.n_b),
                 Err(e) => e,
             })
-            .parse::<usize>()
+            .split_once(',')
+            .map(|(a, b)| (a.parse::<usize>(), b.parse::<usize>()))
             {
-                Ok(n) => n,
-                Err(_) => 0,
+                Some((Ok(a), Ok(b))) => (a, b),
+                _ => (0, 0),
             };
-            let ks: Vec<usize> = if thorough || n_a <= 5 {
-                (0..=n_a).collect()
+            let ks: Vec<usize> = (0..=n_a).collect();
+            // (k, j): A parked at k, B parked at j until A has finished.  thorough: every pair (first seed), quick: a sample
+            let mut pairs: Vec<(usize, Option<usize>)> = ks.iter().map(|k| (*k, None)).collect();
+            let mut all = vec![];
+            for k in 0..n_a {
+                for j in 1..n_b {
+                    all.push((k, Some(j)));
+                }
+            }
+            let _ = round;
+            if thorough || all.len() <= 60 {
+                pairs.extend(all);
             } else {
-                let mut v = vec![0, 1, n_a / 2, n_a - 1, n_a];
-                v.push(rng.below(n_a as u64 + 1) as usize);
-                v.sort_unstable();
-                v.dedup();
-                v
-            };
-            for k in ks {
-                let line = guarded(move || match scenario(kind, seed, k, true) {
+                for _ in 0..60 {
+                    pairs.push(*rng.pick(&all));
+                }
+                pairs.sort_unstable();
+                pairs.dedup();
+            }
+            for (k, j) in pairs {
+                let spec = match j {
+                    None => format!("{seed},{k}"),
+                    Some(j) => format!("{seed},{k},{j}"),
+                };
+                let spec2 = spec.clone();
+                let line = guarded(move || match scenario(kind, seed, k, j, Mode::Trace) {
                     Ok(r) => {
-                        let j = |v: &[String]| if v.is_empty() { "-".to_string() } else { v.join(";") };
-                        format!("c10 mon {kind} {seed},{k} {} {} {}", j(&r.pre), j(&r.run), j(&r.follow))
+                        let jn = |v: &[String]| if v.is_empty() { "-".to_string() } else { v.join(";") };
+                        format!("c10 mon {kind} {spec} {} {} {}", jn(&r.pre), jn(&r.run), jn(&r.follow))
                     }
-                    Err(e) => format!("c10 mon {kind} {seed},{k} - X{} -", e.split_whitespace().next().unwrap_or("?")),
+                    Err(e) => format!("c10 mon {kind} {spec} - X{} -", e.split_whitespace().next().unwrap_or("?")),
                 });
+                let line = if line.starts_with("c10 ") { line } else { format!("c10 mon {kind} {spec2} - X{} -", line.split_whitespace().next().unwrap_or("?")) };
                 stats.hit(format!("kind.{kind}"));
+                stats.hit(if j.is_some() { "park.A-at-k.B-at-j" } else { "park.A-at-k.B-full" });
                 ops.push(line);
             }
         }
